@@ -421,3 +421,10 @@ type Kid struct {
 	Name string
 	Toys []Toy `gorm:"polymorphic:Owner"`
 }
+
+// a column spelled like the Go name of another field (C03)
+type KCrossNamed struct {
+	ID    uint
+	Title string `gorm:"column:Name"`
+	Name  string `gorm:"column:Label"`
+}
